@@ -2,7 +2,8 @@
 //! expression enumeration against the reference evaluator `refmodel::sql::expr`).
 //!
 //! Table = full cross product a∈{NULL,-1,0,1,2} × b∈{NULL,-1.0,0.5,1.0,2.0} × c∈{NULL,'','a','ab','b'}
-//! (125 rows), once with `id INT PRIMARY KEY` (table `t`) and once with a plain `id INT` (table `n`).
+//! (125 rows), once with `id INT PRIMARY KEY` (table `t`), once with a plain `id INT` (table `n`) and once
+//! with the primary key plus secondary B-tree indexes on a and c (table `x`: index-probe plans).
 //! For every enumerated predicate p two observations are compared with the model, row by row:
 //!   where        `SELECT id FROM <tb> WHERE p`            returned id set == rows where eval_truth(p) = TRUE
 //!   select-list  `SELECT id, p FROM <tb> WHERE 1=1`       value per id == TRUE / FALSE / NULL of the model
@@ -705,6 +706,7 @@ impl<'a> Run<'a> {
     }
     /// all trees of depth <= depth over `atoms` (+ NOT over every tree of the last depth if `outer_not`)
     fn trees(&mut self, fx: &mut Fx, rep: &mut Reporter, job: &Job, atoms: &[Expr], depth: usize, with_not: bool, outer_not: bool) {
+        let was_expired = self.expired;
         let mut g = Gen::new(atoms, with_not);
         let mut total: u128 = 0;
         for d in 0..=depth {
@@ -733,16 +735,21 @@ impl<'a> Run<'a> {
             }
         }
         rep.bound(&format!("pass.{}", job.name), json!({"atoms": atoms.len(), "depth": depth, "connectives": if with_not { "NOT AND OR" } else { "AND OR" }, "outer_not": outer_not, "predicates": total.to_string(), "tables": job.tables.iter().map(|t| TABLES[*t]).collect::<Vec<_>>(), "forms": job.modes.iter().map(|m| MODES[*m]).collect::<Vec<_>>()}));
-        if self.expired {
+        if was_expired {
+            rep.capped(&format!("pass {} not run (the deadline was hit in an earlier pass)", job.name));
+        } else if self.expired {
             rep.capped(&format!("deadline inside pass {} (the passes before it are complete; see pass.{}.predicates for the number done)", job.name, job.name));
         }
     }
     fn list(&mut self, fx: &mut Fx, rep: &mut Reporter, job: &Job, preds: &[Expr]) {
+        let was_expired = self.expired;
         for p in preds {
             self.one(fx, rep, job, p);
         }
         rep.bound(&format!("pass.{}", job.name), json!({"predicates": preds.len(), "tables": job.tables.iter().map(|t| TABLES[*t]).collect::<Vec<_>>(), "forms": job.modes.iter().map(|m| MODES[*m]).collect::<Vec<_>>()}));
-        if self.expired {
+        if was_expired {
+            rep.capped(&format!("pass {} not run (the deadline was hit in an earlier pass)", job.name));
+        } else if self.expired {
             rep.capped(&format!("deadline inside pass {}", job.name));
         }
     }
@@ -816,7 +823,7 @@ impl Check for C14 {
         let mut s = Spec::new(
             "C14",
             "exploration",
-            "a case is one (predicate, table, observation form): table = full cross product a{NULL,-1,0,1,2} x b{NULL,-1.0,0.5,1.0,2.0} x c{NULL,'','a','ab','b'} (125 rows) with id PRIMARY KEY (t) or plain id (n); form = `SELECT id FROM tb WHERE p` (returned id set vs rows where the model says TRUE) or `SELECT id, p FROM tb WHERE 1=1` (TRUE/FALSE/NULL per row). Predicates: every atom of refmodel atoms(schema, Consts::c14()) (comparisons col/const/NULL/col-col x 6 operators, IS [NOT] NULL, [NOT] IN with/without NULL, [NOT] BETWEEN with/without NULL bound, [NOT] LIKE) and its NOT, IS [NOT] NULL over every atom, id-column atoms alone and combined with the core, all NOT/AND/OR trees to the stated depth over the 40-atom core (quick: depth<=1 + one outer NOT; thorough: depth<=1 over all atoms, depth<=2 over the core, time-capped), and the B passes = AND/OR trees over the atoms without the constructs of the recorded findings (quick: depth<=1 over all such atoms, depth<=2 over a 10-atom mini core; thorough: depth<=2 over the safe core). Distinct = distinct (predicate, table, form); non-trivial = the model's value is not the same for all 125 rows. Blame is per row: a row counts against p only if every proper boolean sub-expression of p agrees with the model on that row.",
+            "a case is one (predicate, table, observation form): table = full cross product a{NULL,-1,0,1,2} x b{NULL,-1.0,0.5,1.0,2.0} x c{NULL,'','a','ab','b'} (125 rows) with id PRIMARY KEY (t), plain id (n), or PRIMARY KEY plus secondary indexes on a and c (x); form = `SELECT id FROM tb WHERE p` (returned id set vs rows where the model says TRUE) or `SELECT id, p FROM tb WHERE 1=1` (TRUE/FALSE/NULL per row). Predicates: every atom of refmodel atoms(schema, Consts::c14()) (comparisons col/const/NULL/col-col x 6 operators, IS [NOT] NULL, [NOT] IN with/without NULL, [NOT] BETWEEN with/without NULL bound, [NOT] LIKE) and its NOT, IS [NOT] NULL over every atom, 21 id-column atoms (index-eligible) alone, negated and AND/OR-combined with the core in both operand orders, all NOT/AND/OR trees to the stated depth over the 40-atom core (quick: depth<=1 + one outer NOT; thorough: depth<=1 over all atoms, depth<=2 over the core, time-capped), and the B passes = AND/OR trees over the atoms without the constructs of the recorded findings (quick: depth<=1 over all such atoms, depth<=2 over a 10-atom mini core on t and x; thorough: depth<=2 over the 25-atom safe core on t and x). Distinct = distinct (predicate, table, form); non-trivial = the model's value is not the same for all 125 rows. Blame is per row: a row counts against p only if every proper boolean sub-expression of p agrees with the model on that row.",
         );
         s.assumptions = &[
             "oracle = refmodel::sql::expr::Expr::eval_truth (Kleene logic, cross-checked against SQLite); rows on which the model raises Overflow/DivZero/Type are skipped and counted",
